@@ -95,7 +95,7 @@ def valid_constraints(cons, frame):
                         return False
                     continue
                 if atype == 'date':
-                    if fc.get('type') != 'date' or isinstance(v, dict):
+                    if fc.get('type') != 'date':
                         return False
                     try:
                         R.parse_date_bound(b)
